@@ -52,8 +52,8 @@ def run(ck):
                 if len(fr) > 1: w2b.append(f'buffer freed {len(fr)} times')
                 if nonnull and len(fr) != 1: w2b.append(f'buffer non-NULL but freed {len(fr)} time(s)')
                 if null and fr: w2b.append('free on the NULL branch')
-                # after a successful conversion the buffer exists: freeing it once without a NULL test is fine
-                if not nonnull and not null and not (len(fr) == 1 and not failed): w2b.append('path returns without testing/freeing the buffer')
+                # freeing it exactly once without a NULL test is fine on every edge: the pointer was NULL-initialised and free(NULL) does nothing
+                if not nonnull and not null and len(fr) != 1: w2b.append('path returns without testing/freeing the buffer')
                 if fr:
                     j = p.events.index(fr[0])
                     used = [x for x in p.events[j + 1:] if any(out in s for s in eavobj.event_values(x))]
@@ -73,10 +73,11 @@ def run(ck):
             u = p.calls('is_utf8_domain')
             if not u: continue
             rarg = u[0][2][2 if b == 'idnkit' else 0]
-            if not re.fullmatch(r'&malloc#1->idn_rc', rarg): w3.append(f'is_utf8_domain receives {rarg} for the library code')
+            if not re.fullmatch(r'&malloc#\d+->idn_rc', rarg): w3.append(f'is_utf8_domain receives {rarg} for the library code')
             dom = [e for e in p.sets() if e[1].endswith('->is_domain') and e[2] == '1']
-            if dom and not p.passed(f'({u[0][3]} >= 0)', True): w3.append('is_domain set without rc >= 0')
-            if p.last_set('malloc#1->rc') is None or p.last_set('malloc#1->rc')[2] != u[0][3]: w3.append('rc is not the is_utf8_domain result')
+            if dom and not (p.passed(f'({u[0][3]} >= 0)', True) or p.passed(f'({u[0][3]} < 0)', False)): w3.append('is_domain set without rc >= 0')
+            rcs = [e for e in p.sets() if re.fullmatch(r'malloc#\d+->rc', e[1])]
+            if not rcs or rcs[-1][2] != u[0][3]: w3.append('rc is not the is_utf8_domain result')
         r3.instance(f'{k6}:is_6531_email', ok=not w3, wclass='caller-6531', what='; '.join(sorted(set(w3))))
         ke = f'partial/{b}/eav.c'
         eng, paths = cfgpaths.summarise(tus[ke], 'eav_is_email')
